@@ -276,6 +276,70 @@ theorem asciiLoop_gen : ∀ (f : Nat) (s s' : St), asciiLoop f s = .ok s' → By
                 simpa [enc1, hle] using this
               exact step _ [235, ch - 128 + 1] [ch] h rfl rfl rfl rfl rfl (by simp [St.push]) (by simp [St.push]) hY hchunk
 
+theorem asciiLoop_pos_le : ∀ (f : Nat) (s s' : St), asciiLoop f s = .ok s' → s.pos ≤ s.input.length →
+    s'.pos ≤ s.input.length := by
+  intro f
+  induction f with
+  | zero => intro s s' h; cases h
+  | succ f ih =>
+    intro s s' h hle
+    unfold asciiLoop at h
+    cases hm : s.maybeSwitch with
+    | error e => rw [hm] at h; cases h
+    | ok r =>
+      obtain ⟨b, s1⟩ := r
+      rw [hm] at h
+      obtain ⟨hsame, hpos, _, _, _, _⟩ := maybeSwitch_spec s s1 b hm
+      cases b with
+      | true =>
+        simp only [Except.ok.injEq] at h
+        subst h
+        rw [hpos]; exact hle
+      | false =>
+        simp only [] at h
+        by_cases htd : twoDigitsComing s1.rest = true
+        · rw [if_pos htd] at h
+          match hr : s1.rest, htd with
+          | a :: b :: t, htd =>
+            rw [hr] at h
+            simp only [] at h
+            have hlt : s1.pos + 1 < s1.input.length := by
+              have : (s1.input.drop s1.pos).length = (a :: b :: t).length := by rw [← hr]; rfl
+              simp only [List.length_drop, List.length_cons] at this
+              omega
+            have := ih _ s' h (by simp only [St.push]; omega)
+            simp only [St.push] at this
+            rw [← hsame.1]; exact this
+          | [], htd => simp [twoDigitsComing] at htd
+          | [_], htd => simp [twoDigitsComing] at htd
+        · rw [if_neg htd] at h
+          cases he : s1.eat with
+          | none =>
+            rw [he] at h
+            simp only [Except.ok.injEq] at h
+            subst h
+            rw [hpos]; exact hle
+          | some r2 =>
+            obtain ⟨ch, s2⟩ := r2
+            rw [he] at h
+            simp only [] at h
+            have hs2 : s1.pos < s1.input.length ∧ s2 = { s1 with pos := s1.pos + 1 } := by
+              simp only [St.eat] at he
+              split at he
+              · rename_i c hc
+                simp only [Option.some.injEq, Prod.mk.injEq] at he
+                exact ⟨(List.getElem?_eq_some_iff.mp hc).1, he.2.symm⟩
+              · cases he
+            obtain ⟨hlt, hs2e⟩ := hs2
+            subst hs2e
+            split at h
+            · have := ih _ s' h (by simp only [St.push]; omega)
+              simp only [St.push] at this
+              rw [← hsame.1]; exact this
+            · have := ih _ s' h (by simp only [St.push]; omega)
+              simp only [St.push] at this
+              rw [← hsame.1]; exact this
+
 /-! ### the X12 encoder -/
 
 open DM.Spec.Build in
